@@ -13,8 +13,11 @@ VERIF = kani.VERIF
 
 def _extract_tests(out):
     """Return list of (test_name, test_source) from `--concrete-playback=print` output."""
-    tests = []
+    tests, seen = [], set()
     for m in re.finditer(r"(#\[test\]\s*\nfn (kani_concrete_playback_\w+)\(\) \{.*?\n\})\s*\n```", out, re.S):
+        if m.group(2) in seen:
+            continue  # Kani prints one test per failed check; identical inputs give identical names
+        seen.add(m.group(2))
         tests.append((m.group(2), m.group(1)))
     return tests
 
